@@ -466,6 +466,41 @@ func arithLayers(j judge, tier string) []Layer {
 			},
 		})
 	}
+	// L10: operands made of words at the binary boundaries of the registers (public-API counterpart of C07 K3)
+	{
+		vecs := WVecs(2, Sbin)
+		var xs []*Opnd
+		var xd []*Dec
+		precs := []uint32{19, 20, 38, 57}
+		layers = append(layers, Layer{
+			Name:   "L10-binary-boundary-words",
+			Units:  len(vecs),
+			Bounds: fmt.Sprintf("x,y in W(2,Sbin): 1–2-word mantissas over {2^63−1, 2^63, 2^63+1, 2^64−B−1.., B−1, 2^32−1, 2^32, ⌊√B⌋, ⌈√B⌉} (%d vectors, left-normalised), same exponent and y shifted by one word, y also negated; ops 4; prec %v; modes Even/ToZero/AwayFromZero", len(vecs), precs),
+			Run: func(c *Ctx, u int) {
+				if xs == nil {
+					for _, v := range vecs {
+						xs = append(xs, mkWords(false, v, 0, 0, 0))
+					}
+					xd = buildAll(xs)
+				}
+				for yi := range xs {
+					for _, sh := range []int64{0, 19} {
+						for _, neg := range []bool{false, true} {
+							if c.Done() {
+								return
+							}
+							yo := *xs[yi]
+							yo.Exp -= sh
+							yo.V.E10 -= sh
+							yo.Neg, yo.V.Neg = neg, neg
+							y := yo.Build()
+							binSweep(c, j, allBinOps, xs[u], &yo, xd[u], y, precs, []uint8{ToNearestEven, ToZero, AwayFromZero})
+						}
+					}
+				}
+			},
+		})
+	}
 	// L3: run-length digit strings, unary operations and near-tie additions
 	{
 		J := 24
